@@ -242,15 +242,6 @@ class ConvexSpheropolyhedron(Shape3D):
         if np.all(in_polyhedron):
             return in_polyhedron
 
-        # Compute extrusions of the faces
-        extruded_faces = []
-        for face, normal in zip(self.polyhedron.faces, self.polyhedron.normals):
-            base_vertices = self.polyhedron.vertices[face]
-            extruded_vertices = base_vertices + self.radius * normal
-            extruded_faces.append(
-                ConvexPolyhedron([*base_vertices, *extruded_vertices])
-            )
-
         # Select the points between the inner polyhedron and extruded space
         # and then filter them using the point-face distances
         point_faces_in_polyhedron_hull = point_plane_distances <= 0
@@ -260,9 +251,19 @@ class ConvexSpheropolyhedron(Shape3D):
         )
 
         # Exit early if there are no intersections to check between points
-        # and rounded faces
+        # and rounded faces (always the case for a zero rounding radius, for
+        # which the extrusions below would be degenerate)
         if not np.any(point_faces_to_check):
             return in_polyhedron
+
+        # Compute extrusions of the faces
+        extruded_faces = []
+        for face, normal in zip(self.polyhedron.faces, self.polyhedron.normals):
+            base_vertices = self.polyhedron.vertices[face]
+            extruded_vertices = base_vertices + self.radius * normal
+            extruded_faces.append(
+                ConvexPolyhedron([*base_vertices, *extruded_vertices])
+            )
 
         def check_face(point_id, face_id):
             """Check for intersection of the point with rounded faces."""
